@@ -10,6 +10,7 @@ use crate::be16;
 //@item rodbus/src/types.rs | Indexed | enumeq
 //@item rodbus/src/types.rs | BitIterator
 //@item rodbus/src/types.rs | AddressIterator
+//@item rodbus/src/types.rs | ChannelLoggingMode
 //@item rodbus/src/types.rs | RegisterIterator
 
 // ---- specification vocabulary (from the property statements) ----
